@@ -534,6 +534,18 @@ class Evaluator:
                 if isinstance(idx, Adt) and len(idx.xs) == 2 and all(isinstance(x, C) for x in idx.xs):
                     return ArrView(base, idx.xs[0].v, idx.xs[1].v)
             return T
+        if fn.endswith('slice::<impl [T]>::copy_from_slice') and len(args) == 2:
+            dst, src = args[0], args[1]
+            xs = src.xs if isinstance(src, Arr) else (src.xs() if isinstance(src, ArrView) and callable(getattr(src, 'xs', None)) else
+                                                      (src.xs if isinstance(src, ArrView) else None))
+            if isinstance(dst, ArrView) and xs is not None and len(xs) == dst.end - dst.start:
+                for i, x in enumerate(xs):
+                    dst.buf.set(dst.start + i, x)
+                return Tup([])
+            if isinstance(dst, Arr) and xs is not None and len(xs) == len(dst.xs):
+                dst.xs[:] = list(xs)
+                return Tup([])
+            raise Undecided('copy_from_slice on %r' % (dst,))
         if fn.endswith('as_u8_slice') or fn.endswith('as_u8_slice_mut'):
             return args[0]
         if name in ('trailing_zeros',) and isinstance(args[0], C):
